@@ -37,7 +37,8 @@ CLAIMS = {
     "C12": dict(text="Unbounded proof: add/set/deleteRecords refine the abstract per-(name,type) lists (ids are positions, at most 16, distinct, one CNAME), "
                      "SOA is never deleted and its serial is refreshed, token lookup is the longest registered unexpired suffix, resolve follows at most two "
                      "CNAME links (structural recursion on the budget), the sub-name conflict rule, expired implies unreachable, hex-LE address records "
-                     "round-trip. One read path deviates on the current tree (getRecords/getAllRecords of a name two or more labels below its enclosing "
-                     "registered name fail): negation witness in Lean, known finding.",
+                     "round-trip; the three read paths getRecords/getAllRecords/resolve agree for every name at any depth below its enclosing registered "
+                     "name (same answers, same FAULTs; F19 repaired by f022f46, its witness is replayed from the corpus). Correspondence run + monitors "
+                     "tie the model to the contract and exhibit failing inputs.",
                 note=NOTE, technique=TECH),
 }
